@@ -30,8 +30,10 @@ func newPacketBuffer(r io.Reader, packetSize int, s PacketSkipper) (pb *packetBu
 	if pb.packetSize == 0 {
 		// Auto detect packet size
 		if pb.packetSize, err = autoDetectPacketSize(r); err != nil {
-			err = fmt.Errorf("astits: auto detecting packet size failed: %w", err)
-			return
+			if err != ErrNoMorePackets {
+				err = fmt.Errorf("astits: auto detecting packet size failed: %w", err)
+			}
+			return nil, err
 		}
 	}
 	return
@@ -46,8 +48,21 @@ func autoDetectPacketSize(r io.Reader) (packetSize int, err error) {
 	var b = make([]byte, l)
 	shouldRewind, rerr := peek(r, b)
 	if rerr != nil {
+		if rerr == io.EOF {
+			err = ErrNoMorePackets
+			return
+		}
 		err = fmt.Errorf("astits: reading first %d bytes failed: %w", l, rerr)
 		return
+	}
+
+	// Peeked bytes are consumed if the packet size can't be detected so that the caller always makes progress
+	if br, ok := r.(*bufio.Reader); ok {
+		defer func() {
+			if err != nil {
+				br.Discard(l)
+			}
+		}()
 	}
 
 	// Packet must start with a sync byte
@@ -73,7 +88,7 @@ func autoDetectPacketSize(r io.Reader) (packetSize int, err error) {
 				return
 			} else if n == -1 {
 				var ls = packetSize - (l - packetSize)
-				if _, err = r.Read(make([]byte, ls)); err != nil {
+				if _, err = io.ReadFull(r, make([]byte, ls)); err != nil {
 					err = fmt.Errorf("astits: reading %d bytes to sync reader failed: %w", ls, err)
 					return
 				}
@@ -91,15 +106,18 @@ func autoDetectPacketSize(r io.Reader) (packetSize int, err error) {
 func peek(r io.Reader, b []byte) (shouldRewind bool, err error) {
 	if br, ok := r.(*bufio.Reader); ok {
 		var bs []byte
-		bs, err = br.Peek(len(b))
-		if err != nil {
+		// A stream shorter than len(b) is not an error
+		if bs, err = br.Peek(len(b)); err != nil && (err != io.EOF || len(bs) == 0) {
 			return
 		}
 		copy(b, bs)
 		return false, nil
 	}
 
-	_, err = r.Read(b)
+	// A stream shorter than len(b) is not an error
+	if _, err = io.ReadFull(r, b); err == io.ErrUnexpectedEOF {
+		err = nil
+	}
 	shouldRewind = true
 	return
 }
